@@ -133,22 +133,33 @@ def check(ck):
             problems = []
             if len(res) != 1 or res[0][1][0] != "return":
                 problems.append("send_content does not complete (%r)" % ((res[0][1][:2] if res else None),))
-            fixed = emitted[:2]
-            if sorted((k.lower(), v) for (k, v) in fixed) != [("content-length", "8"), ("content-type", "application/json-rpc")]:
-                problems.append("the fixed headers are %r (required first: Content-Type from the configuration, Content-Length = byte length 8)" % (fixed,))
-            custom = emitted[2:]
-            ua = [(k, v) for (k, v) in custom if k.lower() == "user-agent"]
-            custom_wo_ua = dict((k, v) for (k, v) in custom if not (k == "User-Agent" and v == "configured-agent"))
+            # the message's headers as a multiset, whatever their order (the property orders nothing): one Content-Type (the
+            # configured one) and one Content-Length (the byte length), one header per pushed name with the most recent value, one
+            # User-Agent (pushed, else configured), no name twice; further default headers the stack does not name are the library's own
+            by_name = {}
+            for (k, v) in emitted:
+                by_name.setdefault(str(k).lower(), []).append((k, v))
+            for nm_, val_, what in (("content-type", "application/json-rpc", "Content-Type from the configuration"),
+                                    ("content-length", "8", "Content-Length = byte length 8")):
+                got = [v for (_k, v) in by_name.get(nm_, [])]
+                if got != [val_]:
+                    problems.append("%s is emitted as %r (required exactly once: %s)" % (nm_, got, what))
+            ua = [v for (_k, v) in by_name.get("user-agent", [])]
             if "user-agent" in want:
-                if ua != [("user-agent", want["user-agent"])]:
+                if ua != [want["user-agent"]]:
                     problems.append("User-Agent emitted as %r although the stack defines %r" % (ua, want["user-agent"]))
             else:
-                if ua != [("User-Agent", "configured-agent")]:
+                if ua != ["configured-agent"]:
                     problems.append("without a pushed User-Agent the configured one must be sent exactly once, got %r" % (ua,))
-            if len(custom) != len(set(k.lower() for (k, _v) in custom)):
-                problems.append("a header name is emitted twice: %r" % (custom,))
-            if custom_wo_ua != want:
-                problems.append("custom headers emitted %r, required %r" % (custom_wo_ua, want))
+            twice = sorted(k for k, vs in by_name.items() if len(vs) > 1)
+            if twice:
+                problems.append("a header name is emitted twice: %r" % ([by_name[k] for k in twice],))
+            for k_, v_ in want.items():
+                if k_ == "user-agent":
+                    continue
+                got = [v for (_k, v) in by_name.get(k_, [])]
+                if got != [v_]:
+                    problems.append("pushed header %s is emitted as %r, required %r" % (k_, got, v_))
             ck.require(not problems, "C18.2", "jsonrpc.TransportMixIn.send_content: stack %s" % label, "emits %r" % (sorted(want.items()),),
                        "for the header stack '%s' (%r + %r): %s" % (label, extra, stack, "; ".join(problems)), q.loc(fe, fe.node))
     ck.floor("C18.2", 10)
